@@ -343,6 +343,15 @@ theorem rloopWith_goodL (run : St → Res) (hrun : ∀ s, Good s (run s)) (runEl
       exact afterLoop_goodL runElse helse s _ _ rfl
         (rloopLoop_good run hrun ls (loopItems vv sub) 0 s hs) hs hf
 
+
+theorem rloopQB_goodL (run : St → Res) (hrun : ∀ s, Good s (run s)) (runElse : Option (St → Res))
+    (helse : ∀ re, runElse = some re → ∀ s, GoodL s (re s)) (ls : RLoopSpec) (s : St) :
+    GoodL s (rloopQB run runElse ls s) := by
+  unfold rloopQB
+  cases cmpPath s.c.vars s.c.chQB ls.src with
+  | none => intro hs hf; simp [ok, hs] at hf
+  | some p => exact rloopWith_goodL run hrun runElse helse { ls with src := p } s
+
 theorem loopNode_good (loop : St → Res) (hl : ∀ s, GoodL s (loop s)) (s : St) : Good s (loopNode loop s) := by
   intro hs hf
   unfold loopNode at hf ⊢
